@@ -68,6 +68,52 @@ def check_predicate(facts, f, cov):
     return res
 
 
+def gated_recursions(facts, f):
+    """self-calls of the predicate whose execution depends on the result of another (non-self) call that looks at an
+    expression id: (call term, gating callee)"""
+    from ..cfg import DefIndex, dominators
+
+    out = []
+    dom = dominators(f)
+    di = DefIndex(f)
+    for b, t in f.calls():
+        if (callee(t) or "") != f.path:
+            continue
+        for d in dom.get(b, ()):
+            if d == b:
+                continue
+            tt = f.term(d)
+            if tt[KIND] != "switch" or tt[4][0] not in ("cp", "mv"):
+                continue
+            r = di.resolve(tt[4])
+            if r[0] != "call":
+                continue
+            c = callee(r[1]) or ""
+            if c == f.path:
+                continue  # short-circuit on an earlier recursive result
+            if not any(a[0] in ("cp", "mv") and "ExprNodeId" in f.local_ty(a[1][0]) for a in r[1][5]):
+                continue
+            # which edge leads to the recursive call?  only the "must be true/false to recurse" shape matters
+            out.append((t, c))
+    return out
+
+
+def run_gating(ck, facts, R, only=None, floor=1):
+    ck.rule(R, "a recursive search predicate over ast::Expr descends into a child unconditionally, or conditionally only on the results of its own earlier recursive calls (short-circuit), the node's shape, or iteration: a descent that is gated by another predicate of the same child (`other(e) && self(e)`) prunes subtrees by a criterion that is not the question being asked")
+    n = 0
+    for f, cov in predicates(facts):
+        if only and not only(f):
+            continue
+        n += 1
+        g = gated_recursions(facts, f)
+        key = "ungated|%s" % f.short.split("::")[-1]
+        if not g:
+            ck.ok(R, key)
+        for t, c in g:
+            ck.bad(R, "gated|%s|%s" % (f.short.split("::")[-1], c.split("::")[-1]), "%s descends into a child only when %s answers for that child: subtrees for which it answers otherwise are never searched, so the predicate can say `no` for a tree that contains what it looks for" % (f.short, c.split("::", 1)[-1]), f.where(t))
+    ck.floor(R, "search_predicates", n, floor)
+
+
 def run(ck, facts, R, only=None, floor=1):
     ck.rule(R, "a recursive bool predicate over ast::Expr reads, in every arm that looks at children at all, every field of the matched variant that holds expressions (ExprNodeId, lists/options of them, record fields, match arms): an arm that recurses into some children and ignores another is blind below it, and the stage the predicate steers is skipped for programs whose only relevant construct sits there")
     n = 0
